@@ -131,7 +131,8 @@ def analyse_events(events, din=None):
     te = {(os.path.relpath(e['task'], din) if din else os.path.basename(e['task'])): e['t'] for e in events if e['ev'] == 'task_end'}
     mx_tasks = peak(tb, te)                  # whole tasks, injected delays included
     return {'order': order, 'pids': {str(k): v for k, v in pids.items()}, 'max_concurrency': mx, 'max_task_concurrency': mx_tasks, 'writers': writers,
-            'raised': [e for e in events if e['ev'] == 'raised']}
+            'raised': [e for e in events if e['ev'] == 'raised'],
+            'logged': collections.Counter(e.get('exc', '?') for e in events if e['ev'] == 'logged_exc')}
 
 
 def run_shard(ctx, p):
@@ -228,6 +229,8 @@ def run_shard(ctx, p):
                 rec.inconclusive_because('batch run %s of converter %s hit the %ds wall-clock watchdog (files %s)' % (tag, conv, CHILD_TIMEOUT, kinds))
                 continue
             ev = analyse_events(events, din)
+            for exc_name, cnt in sorted(ev['logged'].items()):
+                rec.add('errors_logged_by_converters:%s:%s' % (conv, exc_name), cnt)
             for lab, cnt in ((res or {}).get('mechanism_hits') or {}).items():
                 rec.mechanism_hits[lab + ' [driver process]'] += cnt
             rec.mon('worker_events', len(events))
